@@ -146,6 +146,10 @@ func genC06(tier string) []*batch.Case {
 				tmp := &Ter{Op: "slice", A: l, B: zl(1), C: n, T: lt}
 				return seq(c06BuildList(l, el, n, p), c06PrintElem(&Bin{Op: "index", L: tmp, R: i, T: el.t}))
 			})
+			add("list-rvalue-unused:"+sfx, "rvalue index whose result is never used", 1, byteIdx, structs, nil, nil, func(p string, n, i, j *Var) []Stmt {
+				l := vr(p+"_l", lt)
+				return seq(c06BuildList(l, el, n, p), one(&VarDecl{Name: p + "_unbenutzt", T: el.t, Init: &Bin{Op: "index", L: l, R: i, T: el.t}}), one(prs("danach\n")))
+			})
 			add("list-assign:"+sfx, "assignment to a list element", 1, byteIdx, structs, nil, nil, func(p string, n, i, j *Var) []Stmt {
 				l := vr(p+"_l", lt)
 				return seq(c06BuildList(l, el, n, p), one(&Assign{Target: &Bin{Op: "index", L: l, R: i, T: el.t}, Val: el.repl}), c06Dump(p, l))
@@ -203,6 +207,10 @@ func genC06(tier string) []*batch.Case {
 		add("text-rvalue-var:"+sfx, "t an der Stelle i", 1, byteIdx, nil, nil, nil, func(p string, n, i, j *Var) []Stmt {
 			t := vr(p+"_t", Text)
 			return seq(c06BuildText(t, n, p), pr(&Bin{Op: "index", L: t, R: i, T: Char}))
+		})
+		add("text-rvalue-unused:"+sfx, "t an der Stelle i, result never used", 1, byteIdx, nil, nil, nil, func(p string, n, i, j *Var) []Stmt {
+			t := vr(p+"_t", Text)
+			return seq(c06BuildText(t, n, p), one(&VarDecl{Name: p + "_unbenutzt", T: Char, Init: &Bin{Op: "index", L: t, R: i, T: Char}}), one(prs("danach\n")))
 		})
 		add("text-rvalue-temp:"+sfx, "(t verkettet mit \"\") an der Stelle i", 1, byteIdx, nil, nil, nil, func(p string, n, i, j *Var) []Stmt {
 			t := vr(p+"_t", Text)
